@@ -1079,3 +1079,46 @@ func sortedSet(m map[string]bool) []string {
 	sort.Strings(ks)
 	return ks
 }
+
+
+// C18.e NO-MANUAL-ENCODING: production code that fetches from logs never sets Accept-Encoding itself. net/http
+// decompresses transparently only when the header was left alone; a hand-set "gzip" hands the raw gzip stream to the
+// tile/record parsers as soon as a server or CDN actually compresses.
+func ruleNoManualEncoding(w *World, r *Run, rule string) {
+	n, bad := 0, 0
+	for _, fn := range w.prodFns() {
+		for _, b := range fn.Blocks {
+			for _, in := range b.Instrs {
+				c, ok := in.(ssa.CallInstruction)
+				if !ok {
+					continue
+				}
+				sc := c.Common().StaticCallee()
+				if sc == nil {
+					continue
+				}
+				name := funcName(sc)
+				if name != "(net/http.Header).Set" && name != "(net/http.Header).Add" {
+					continue
+				}
+				n++
+				args := c.Common().Args
+				if len(args) < 3 {
+					continue
+				}
+				key, isConst := constString(args[1])
+				if !isConst {
+					continue
+				}
+				if strings.EqualFold(key, "Accept-Encoding") {
+					bad++
+					r.Fail(rule, funcNameOrSSA(outermost(fn))+" | response decoding left to net/http", w.pos(in.Pos()), "the request sets Accept-Encoding by hand: net/http then returns compressed bodies undecoded, and tiles, checkpoints or proofs are parsed from a raw gzip stream whenever the server compresses")
+				}
+			}
+		}
+	}
+	r.sites += n
+	if bad == 0 {
+		r.Pass(rule, "outbound requests | response decoding left to net/http", "", "")
+	}
+}
